@@ -89,6 +89,8 @@ type FactsRec struct {
 	Facts   Facts    `json:"facts"`
 }
 
+var errTooHeavy = fmt.Errorf("too expensive for the specification")
+
 func members(set interface{ CharIn(rune) bool }, alpha []int) []int {
 	out := []int{}
 	for _, c := range alpha {
@@ -245,6 +247,21 @@ func init() {
 			}
 			keep := [][]int{}
 			probe := newSpecProbe(text, optBits(o, dia, isRTL))
+			// TLC evaluates the pattern on EVERY string up to the bound: a pattern that is expensive for the plain backtracking
+			// specification already on a few of them (nested nullable loops) is left to the other checks
+			for k := 0; k <= len(alpha); k++ {
+				var w []rune
+				for i := 0; i < ml; i++ {
+					if k < len(alpha) {
+						w = append(w, rune(alpha[k]))
+					} else {
+						w = append(w, rune(alpha[i%len(alpha)]))
+					}
+				}
+				if probe.heavyFor(w, 300, 900) {
+					return errTooHeavy
+				}
+			}
 			for _, in := range extraIn {
 				if !probe.heavy(intsToRunes(in), isRTL) {
 					keep = append(keep, in)
@@ -286,7 +303,7 @@ func init() {
 		cfg.MaxNodes = 8
 		g := &Gen{r: newRand(seedFromEnv(), *stream), c: cfg}
 		alpha := []int{'a', 'b', 'c', 'A', '\n', '=', ' ', '7'}
-		compileErrs := 0
+		compileErrs, heavy := 0, 0
 		for id := 1; id <= *n; id++ {
 			o := randOpts(g, "ims", 0.15)
 			g.N = false
@@ -348,12 +365,14 @@ func init() {
 					extraIn = append(extraIn, in)
 				}
 			}
-			if err := emit(id, Flatten(t), o, "net", isRTL, cg, a, *maxLen, extraIn); err != nil {
+			if err := emit(id, Flatten(t), o, "net", isRTL, cg, a, *maxLen, extraIn); err == errTooHeavy {
+				heavy++
+			} else if err != nil {
 				compileErrs++
 				fmt.Fprintf(os.Stderr, "compile error: %v\n", err)
 			}
 		}
-		fmt.Fprintf(os.Stderr, "record-facts: patterns=%d compile_errors=%d\n", *n, compileErrs)
+		fmt.Fprintf(os.Stderr, "record-facts: patterns=%d compile_errors=%d too_heavy_for_the_specification=%d\n", *n, compileErrs, heavy)
 		if compileErrs*10 > *n {
 			return 2
 		}
